@@ -258,6 +258,7 @@ pub struct Limits {
 pub const GEN_CURRENT: u8 = 1;
 
 pub struct Sim {
+    pub profile: String,
     /// the choice sequence of the case (a restored server continues with a part of it)
     pub case_choices: Vec<(u16, u32)>,
     pub genv: u8,
@@ -329,6 +330,7 @@ impl Sim {
         let obs = Rc::new(RefCell::new(Obs::default()));
         obs.borrow_mut().epochs.push(EpochObs::default());
         Sim {
+            profile: case.profile.clone(),
             case_choices: case.choices.clone(),
             genv: case.genv,
             world,
@@ -1249,11 +1251,31 @@ impl Sim {
             // random DAG; ids continue after existing ids; deps on earlier tasks of this submit
             // and on existing tasks of the job
             let start = max_existing.map(|m| m + 1).unwrap_or(sub(arg, 32, 2) as u32);
-            let rq2 = sub(arg, 35, palette::N_RQ_PALETTE);
+            let rq2 = if self.genv >= 1 {
+                sub(arg, 35, palette::N_RQ_PALETTE_V1)
+            } else {
+                sub(arg, 35, palette::N_RQ_PALETTE)
+            };
             let rqs = vec![palette::request(rq_idx), palette::request(rq2)];
             let mut tasks = Vec::new();
+            // task ids need not ascend in the order in which a graph lists its tasks (job files
+            // are sorted topologically, the Python API uses the order of definition)
+            let id_of = |i: u32| -> u32 {
+                if self.genv < 1 {
+                    return start + i;
+                }
+                match sub(arg, 36, 4) {
+                    0 => start + (n as u32 - 1 - i),
+                    1 => {
+                        // neighbours swapped
+                        let j = i ^ 1;
+                        start + if j < n as u32 { j } else { i }
+                    }
+                    _ => start + i,
+                }
+            };
             for i in 0..n as u32 {
-                let id = start + i;
+                let id = id_of(i);
                 let mut deps: Vec<u32> = Vec::new();
                 let k = sub(arg, 40 + i, 4); // 0..3 deps
                 for d in 0..k {
@@ -1263,7 +1285,7 @@ impl Sim {
                     }
                     let x = sub(arg, 60 + i * 4 + d as u32, pool);
                     let dep = if x < i as usize {
-                        start + x as u32
+                        id_of(x as u32)
                     } else {
                         existing_ids[x - i as usize]
                     };
@@ -1372,8 +1394,17 @@ impl Sim {
         )
     }
 
-    fn weights_profile_rq(&self, _arg: u32) -> Option<usize> {
-        None
+    /// Request class of a submit. Generator version >= 1 knows three more classes (variants that
+    /// differ only in amounts); the placement / steal profiles prefer them.
+    fn weights_profile_rq(&self, arg: u32) -> Option<usize> {
+        if self.genv < 1 {
+            return None;
+        }
+        let prefer = matches!(self.profile.as_str(), "placement" | "steal" | "resources");
+        if prefer && sub(arg, 191, 3) == 0 {
+            return Some(14 + sub(arg, 192, 3));
+        }
+        Some(sub(arg, 22, palette::N_RQ_PALETTE_V1))
     }
 
     async fn do_crash(&mut self, _arg: u32) -> String {
